@@ -378,6 +378,15 @@ func (c12) params(sc core.Scenario, r *core.R) {
 			code, _, _ := rawCall(rpc, "Cat."+m.Name, "["+strings.Join(params, ",")+"]")
 			return code, cat.take()
 		}
+		// the same request as a notification (no id): whatever is or is not answered, a handler may only run
+		// when arity and types are right
+		sendNotif := func(params []string) []catRec {
+			cat.take()
+			body := fmt.Sprintf(`{"jsonrpc":"2.0","method":"Cat.%s","params":[%s]}`, m.Name, strings.Join(params, ","))
+			rec := httptest.NewRecorder()
+			rpc.ServeHTTP(rec, httptest.NewRequest("POST", "/", strings.NewReader(body)))
+			return cat.take()
+		}
 		k := len(ptypes)
 		// arities 0..k+1
 		for n := 0; n <= k+1; n++ {
@@ -398,6 +407,9 @@ func (c12) params(sc core.Scenario, r *core.R) {
 			}
 			if len(recs) != 0 {
 				r.Violate("ran-with-wrong-arity", "%s declared with %d params ran with %d params", m.Name, k, n)
+			}
+			if nrecs := sendNotif(ps); len(nrecs) != 0 {
+				r.Violate("ran-with-wrong-arity", "%s declared with %d params ran for a notification carrying %d params", m.Name, k, n)
 			}
 			if code == 0 {
 				r.Violate("wrong-arity-accepted", "%s declared with %d params answered a %d-param request without error", m.Name, k, n)
@@ -426,6 +438,10 @@ func (c12) params(sc core.Scenario, r *core.R) {
 						r.Violate("decodable-param-rejected", "%s param %d (%s) = %s decodes with encoding/json but the handler ran %d times (code %d)", m.Name, i, pt, probe, len(recs), code)
 					}
 				} else {
+					if nrecs := sendNotif(ps); len(nrecs) != 0 {
+						r.Violate("ran-with-undecodable-param", "%s param %d (%s) = %s does not decode into the declared type, yet the handler ran for a notification (it received %v)", m.Name, i, pt, probe, nrecs[0].args)
+					}
+					r.Obs("param_requests", 1)
 					if len(recs) != 0 {
 						r.Violate("ran-with-undecodable-param", "%s param %d (%s) = %s does not decode into the declared type, yet the handler ran", m.Name, i, pt, probe)
 					}
